@@ -911,6 +911,48 @@ var sibExtensibleReviewed = map[string]string{
 	"goArrayDefineOwnProperty":  "a Go array has a fixed length: setValue refuses every index outside it (returns false -> typeErrorResult), other names go to the ordinary implementation; no path creates a property",
 }
 
+// existenceSide: the successor of `if cond` on which a bridge class knows the property to exist already: the true side
+// of reflect.Value.IsValid() of a lookup, or the side of an index/length comparison on which index < Len().
+func existenceSide(cond ssa.Value) int {
+	if call, ok := cond.(*ssa.Call); ok && isReflectFn(call.Call.StaticCallee(), "IsValid") != "" {
+		return 0
+	}
+	bo, ok := cond.(*ssa.BinOp)
+	if !ok {
+		return -1
+	}
+	isLen := func(v ssa.Value) bool {
+		for i := 0; i < 3; i++ {
+			switch y := v.(type) {
+			case *ssa.Convert:
+				v = y.X
+				continue
+			case *ssa.Call:
+				return isReflectFn(y.Call.StaticCallee(), "Len") != ""
+			}
+			break
+		}
+		return false
+	}
+	switch {
+	case isLen(bo.Y): // index OP len
+		switch bo.Op {
+		case token.LSS:
+			return 0
+		case token.GEQ:
+			return 1
+		}
+	case isLen(bo.X): // len OP index
+		switch bo.Op {
+		case token.GTR:
+			return 0
+		case token.LEQ:
+			return 1
+		}
+	}
+	return -1
+}
+
 func ruleSibExtensible(c *Ctx, r *R) {
 	impls := slotImplsOf(c)["defineOwnProperty"]
 	if len(impls) < 4 {
@@ -1013,7 +1055,14 @@ func ruleSibExtensible(c *Ctx, r *R) {
 				witness = append([]string{}, path...)
 				return true
 			}
-			for _, s2 := range b.Succs {
+			existsSide := -1
+			if iff, ok := b.Instrs[len(b.Instrs)-1].(*ssa.If); ok {
+				existsSide = existenceSide(iff.Cond)
+			}
+			for i, s2 := range b.Succs {
+				if i == existsSide {
+					continue // the property exists on this side: 8.12.9 step 3 does not apply
+				}
 				if dfs(s2, path) {
 					return true
 				}
